@@ -192,6 +192,39 @@ def mk_obs_acc(fn):
         return (di.ok,), (dm.ok,)
     return f
 
+def obs_flag(variant):
+    """only whether the outcome is the given error variant"""
+    def f(di, dm, il, ml):
+        return res_kind(res_line(il)) == 'err:' + variant, res_kind(res_line(ml)) == 'err:' + variant
+    return f
+
+def obs_limit(di, dm, il, ml):
+    """C15: is it NodesLimitReached; node count when both accept"""
+    a = res_kind(res_line(il)) == 'err:NodesLimitReached'
+    b = res_kind(res_line(ml)) == 'err:NodesLimitReached'
+    if di.ok and dm.ok:
+        return (a, len(di.nodes)), (b, len(dm.nodes))
+    return (a,), (b,)
+
+def obs_reject_wellformed(fn):
+    """C03/C07: the content when both accept; and the implementation must not reject what the
+    model (proved to accept the supported subset) accepts. An implementation that accepts more is C08's matter."""
+    def f(di, dm, il, ml):
+        if di.ok and dm.ok:
+            return (True, fn(di)), (True, fn(dm))
+        if dm.ok and not di.ok:
+            return (False, res_line(il)), (True,)
+        return None, None
+    return f
+
+def obs_errors(di, dm, il, ml):
+    """C14: positions and payloads of errors, when both sides report the same variant; text positions"""
+    ri, rm = res_line(il), res_line(ml)
+    tp = (tag_lines(il, ['TP']), tag_lines(ml, ['TP']))
+    if res_kind(ri).startswith('err:') and res_kind(ri) == res_kind(rm):
+        return (ri, tp[0]), (rm, tp[1])
+    return (None, tp[0]), (None, tp[1])
+
 def mk_obs(fn):
     """observable projection over Dump objects; only compared when both sides accepted"""
     def f(di, dm, il, ml):
@@ -294,12 +327,12 @@ ALL = 'tok,arena,ev,api,lk,it,tp'
 
 PROPS = collections.OrderedDict()
 PROPS['C01'] = P_('parsing is total', 'tok,arena', plan(G_COMMON_QUICK, G_COMMON_THOROUGH),
-                  observable=None, internal=['RES', 'TKRES'], impl_checks=[chk_no_panic, chk_depth], limits=True,
-                  special='scale_parse')
+                  observable=None, internal=[], impl_checks=[chk_no_panic, chk_depth], limits=True,
+                  special='scale_parse', crash_is_violation=True)
 PROPS['C02'] = P_('well-formed ordered tree', 'arena', plan(G_COMMON_QUICK, G_COMMON_THOROUGH),
                   observable=mk_obs(lambda d: d.structure()), internal=['N'], oracles=['C02.'], special='tree')
 PROPS['C03'] = P_('markup mirrors the logical structure', 'tok,arena', plan(G_COMMON_QUICK, G_COMMON_THOROUGH),
-                  observable=mk_obs_acc(lambda d: d.markup()), internal=['TK', 'TKRES'], special='markup')
+                  observable=obs_reject_wellformed(lambda d: d.markup()), internal=['TK', 'TKRES'], special='markup')
 PROPS['C04'] = P_('character data decoding', 'arena,ev',
                   plan(G_COMMON_QUICK[:2] + [['pieces-text', 2]], G_COMMON_THOROUGH[:3] + [['pieces-text', 4]]),
                   observable=mk_obs(lambda d: d.texts()), internal=['EV F'], special='pieces_text')
@@ -309,15 +342,16 @@ PROPS['C05'] = P_('attributes', 'arena,ev',
 PROPS['C06'] = P_('namespaces', 'arena', plan(G_COMMON_QUICK, G_COMMON_THOROUGH),
                   observable=mk_obs(lambda d: d.namespaces()), internal=['V', 'O'], special='ns_scale')
 PROPS['C07'] = P_('entity reference = replacement text', 'arena', plan([['model', 1500, 10]], [['model', 20000, 10]]),
-                  observable=mk_obs_acc(lambda d: d.content()), special='hoist')
+                  observable=obs_reject_wellformed(lambda d: d.content()), special='hoist')
 PROPS['C08'] = P_('ill-formed documents are rejected', 'tok,arena', plan(G_COMMON_QUICK, G_COMMON_THOROUGH),
                   observable=lambda di, dm, il, ml: (res_kind(res_line(il)) == 'ok', res_kind(res_line(ml)) == 'ok'),
                   internal=['RES', 'TKRES'], special='illform')
 PROPS['C09'] = P_('entity expansion is bounded', 'arena,ev', plan([['model', 1500, 30]], [['model', 20000, 30]]),
-                  observable=obs_res, internal=['EV L'], impl_checks=[chk_size_bound, chk_no_panic], special='entities')
+                  observable=obs_flag('EntityReferenceLoop'), internal=['EV L'], impl_checks=[chk_size_bound, chk_no_panic], special='entities',
+                  crash_is_violation=True)
 PROPS['C10'] = P_('read operations are total', 'arena,api,lk,it,tp', plan(G_COMMON_QUICK[:3], G_COMMON_THOROUGH[:4]),
                   observable=obs_api(['DQ', 'Q', 'AQ', 'NQ', 'LK', 'IT', 'TP', 'AE']), impl_checks=[chk_api_no_panic],
-                  special='scale_api')
+                  special='scale_api', crash_is_violation=True)
 PROPS['C11'] = P_('navigation agrees with the tree', 'arena,api,it', plan(G_COMMON_QUICK[:3], G_COMMON_THOROUGH[:4]),
                   observable=obs_api(['DQ', 'Q', 'IT', 'AQ', 'NQ']), oracles=['C11.'])
 PROPS['C12'] = P_('name lookups', 'arena,api,lk', plan(G_COMMON_QUICK[:3], G_COMMON_THOROUGH[:4]),
@@ -325,18 +359,17 @@ PROPS['C12'] = P_('name lookups', 'arena,api,lk', plan(G_COMMON_QUICK[:3], G_COM
 PROPS['C13'] = P_('source ranges', 'arena,api', plan(G_COMMON_QUICK[:3], G_COMMON_THOROUGH[:4]),
                   observable=mk_obs(lambda d: d.ranges()), oracles=['C13.'], special='shift')
 PROPS['C14'] = P_('text positions and error reports', 'arena,tp', plan(G_COMMON_QUICK, G_COMMON_THOROUGH),
-                  observable=lambda di, dm, il, ml: ((res_line(il), tag_lines(il, ['TP'])), (res_line(ml), tag_lines(ml, ['TP']))),
-                  impl_checks=[chk_err_pos], special='errshift')
+                  observable=obs_errors, impl_checks=[chk_err_pos], special='errshift')
 PROPS['C15'] = P_('nodes_limit', 'arena', plan([['model', 600, 10]], [['model', 6000, 10], ['mut', 3000, 400]]),
-                  observable=obs_res, oracles=['C15.'], special='limits')
+                  observable=obs_limit, oracles=['C15.'], special='limits')
 PROPS['C16'] = P_('allow_dtd', 'arena', plan([['model', 1500, 20], ['mut', 800, 400]], [['model', 20000, 20], ['mut', 20000, 1000]]),
-                  observable=obs_res, impl_checks=[chk_no_growth_default], special='dtdpairs')
+                  observable=obs_flag('DtdDetected'), impl_checks=[chk_no_growth_default], special='dtdpairs')
 PROPS['C17'] = P_('node identity, ordering, hashing', 'arena,api', plan([['model', 300, 0]], [['model', 3000, 0]]),
                   observable=obs_api(['DQ']), special='ord')
 PROPS['C18'] = P_('borrowed strings', 'arena', plan(G_COMMON_QUICK[:3], G_COMMON_THOROUGH[:4]),
                   observable=mk_obs(lambda d: d.storages()), impl_checks=[chk_borrowed], special='storage')
 PROPS['C19'] = P_('determinism and features', 'arena', plan([['model', 800, 20], ['fixtures', 4000]], [['model', 10000, 20], ['fixtures', 20000], ['mut', 5000, 400]]),
-                  observable=mk_obs(lambda d: d.content()), internal=['RES'], special='features')
+                  observable=mk_obs(lambda d: d.content()), internal=[], special='features')
 PROPS['C20'] = P_('immutable, thread-shareable, no unsafe', 'arena,api', plan([['model', 200, 0]], [['model', 2000, 0]]),
                   observable=obs_api(['DQ', 'Q']), special='threads')
 
@@ -386,7 +419,10 @@ def run_property(pid, cfg, tier, seed, exe, chk, violations, broken, notes, repl
     distinct = set()
     samples = []
     for cid, why, lines in crashes:
-        add_violation(violations, kind='crash', what=f'process {why} while handling this input', case=chk.case_text(lines), concrete=True)
+        if cfg.get('crash_is_violation'):
+            add_violation(violations, kind='crash', what=f'process {why} while handling this input', case=chk.case_text(lines), concrete=True)
+        else:
+            notes.append(f'input {cid} made the harness process die ({why}); skipped here, it is a C01/C10 matter')
     tie_examples = []
     for cid, il in impl.items():
         info = chk.case_text(il)
@@ -418,7 +454,10 @@ def run_property(pid, cfg, tier, seed, exe, chk, violations, broken, notes, repl
                 add_violation(violations, kind='observable-disagreement',
                               what='implementation output differs from the proven model on the property\'s observable projection',
                               case=info, impl=repr(a)[:600], model=repr(b)[:600], concrete=True)
+        both_ok = res_kind(res_line(il)) == 'ok' and res_kind(res_line(ml)) == 'ok'
         for tags in cfg.get('internal', ()):
+            if tags not in ('RES', 'TKRES', 'TK') and not both_ok:
+                continue
             a = [l for l in il if l.startswith(tags + ' ') or l == tags]
             b = [l for l in ml if l.startswith(tags + ' ') or l == tags]
             if a != b:
